@@ -182,6 +182,8 @@ class Normalizer:
             return const(fr)
         if k == 'int':
             return const(t[1])
+        if k == 'op' and t[1] == 'Div' and any(x[0] == 'int' and not str(x[2]).startswith('f') for x in (t[2], t[3])):
+            return atom(t)          # integer (flooring) division is not real division
         if k == 'op' and t[1] in ('Add', 'Sub', 'Mul', 'Div'):
             a, b = self.norm(t[2]), self.norm(t[3])
             return {'Add': a + b, 'Sub': a - b, 'Mul': a * b, 'Div': a / b}[t[1]] if not (t[1] == 'Div' and b.n.is_zero()) else atom(t)
